@@ -289,14 +289,28 @@ def run_case(case):
                 hands[w].dataReceived(frame(m))
             elif k == 'reg':
                 _, w, host, ok = ev
-                h = F.Hand(Addr('h%d' % host))
+                # every other connection was accepted while the pipeline still
+                # ran its previous revision (slow handshake, update in between):
+                # eligibility is decided against the revision that is current
+                # when the registration is processed
+                if w % 2 == 0:
+                    dawgie.context.git_rev = 'OLD'
+                try:
+                    h = F.Hand(Addr('h%d' % host))
+                finally:
+                    dawgie.context.git_rev = 'REV'
                 h.transport = Tr(w)
                 hands[w] = h
                 # incarnation 0 is what a worker's first start announces (check_06.sh: -i 0)
                 h.dataReceived(frame(M.make(typ=M.Type.register, inc=(w + host) % 3, rev='REV' if ok else 'OLD')))
             elif k == 'poll':
                 _, w, ok = ev
-                h = F.Hand(Addr('h9'))
+                if w % 2 == 0:
+                    dawgie.context.git_rev = 'OLD'
+                try:
+                    h = F.Hand(Addr('h9'))
+                finally:
+                    dawgie.context.git_rev = 'REV'
                 h.transport = Tr(w)
                 h.dataReceived(frame(M.make(typ=M.Type.status, rev='REV' if ok else 'OLD')))
             elif k == 'drop':
